@@ -128,6 +128,7 @@ pub fn value_strategy(ty: &Ty) -> BoxedStrategy<Value> {
             .prop_map(|m| Value::Object(m.into_iter().collect()))
             .boxed(),
         Ty::Boxed(t) => value_strategy(t),
+        Ty::Arr2(t) => (value_strategy(t), value_strategy(t)).prop_map(|(a, b)| Value::Array(vec![a, b])).boxed(),
         Ty::Param(_) | Ty::Assoc(_) => panic!("value_strategy on unresolved type"),
     }
 }
@@ -141,7 +142,7 @@ pub fn wrong_value(ty: &Ty) -> Value {
         Ty::Coin | Ty::Rec | Ty::MyMsg => json!(12),
         Ty::Choice => json!(["nope"]),
         Ty::Opt(t) | Ty::Boxed(t) => wrong_value(t),
-        Ty::Vec(_) | Ty::Tup2(..) => json!("not-a-list"),
+        Ty::Vec(_) | Ty::Tup2(..) | Ty::Arr2(_) => json!("not-a-list"),
         Ty::Map(_) => json!(3),
         Ty::Param(_) | Ty::Assoc(_) => json!(null),
     }
